@@ -150,6 +150,8 @@ def programs(tier):
         progs += [[['map', 'inc']] + t for t in tees[::40]] + [t + [['count']] for t in tees[::40]]
     else:
         progs += [p for p, _ in pipelines(3)]
+        core8 = [OPS_T[i] for i in (0, 6, 9, 17, 19, 29, 31, 35)]        # map, filter, scan, count(reduce), sum(reduce), last, take(1), duc
+        progs += [p for p, _ in pipelines(4, 'I', core8)]
         tees = tee_programs()
         progs += tees
         progs += [[['map', 'inc']] + t for t in tees[::5]] + [t + [o] for t in tees[::5] for o in (['count'], ['last'], ['to_list'])]
